@@ -69,7 +69,7 @@ AccCtx(v) ==
 \* the driver creates machine k of the list through the calls machine and pages themselves (index k - 1, zero-filled pages)
 Machine(n) == [n |-> U(n), code |-> Prog, pc |-> U64Zero, acc |-> << <<32, "W">>, <<33, "R">> >>]
 RefCtx(v) == [Ctx(<<SelfBase(Add(SelfThr, U(1000))), Other>>, Priv(0, 0, 0, 0, 0))
-              EXCEPT !.machines = IF v = 2 THEN <<>> ELSE <<Machine(0), Machine(1)>>, !.nexp = 1, !.expoff = IF v = 2 THEN 3072 ELSE 0]
+              EXCEPT !.machines = IF v = 2 THEN <<>> ELSE <<Machine(0), Machine(1)>>, !.nexp = 1, !.expoff = IF v = 2 THEN 3071 ELSE 0]
 
 \* ---------------------------------------------------------------- argument partition
 \* a field: registers it sets, candidate tuples (the first g are "good": they let the call proceed)
